@@ -82,6 +82,9 @@ func NewKernel(enabled bool) *Kernel {
 
 // AddTask registers a task before the run starts and returns its id.
 func (k *Kernel) AddTask(name string) int {
+	if !k.enabled {
+		return -1 // engine E1 has no tasks (and no limit on the number of connections)
+	}
 	id := k.ntasks
 	if id >= maxTasks {
 		panic("kernel: too many tasks")
